@@ -18,6 +18,11 @@ Every case runs the REAL slimta code against a peer that stops cooperating at on
   re-use   SMTP/LMTP with idle_timeout: message 1 succeeds, the next hop goes silent at MAIL / end-of-data of
            message 2 on the same connection, or sends half a line unasked while idle (_check_server_timeout probe).
            A re-use case in which a second connection was opened is 'stall-stage-not-reached', never a verdict.
+  probe    the same probe before the FIRST MAIL (idle_timeout None and set): after the EHLO/LHLO reply was consumed
+           the next hop pushes, as a segment of its own, an unsolicited reply it never finishes ('421 ... clos'
+           without CRLF; '421-' continuation lines without a last line).  Judged only if the probe's
+           has_reply_waiting() saw the fragment (an observer wrapped around the client's _check_server_timeout
+           notes that); if a later read got it: 'stall-stage-not-reached', re-run, never a verdict.
 
 Verdict "still blocked" -- why it is not a wall-clock verdict.  slimta's gevent Timeouts and the harness'
 sleeps are timers of the same single-threaded libev hub; libev fires timers in deadline order and gevent
@@ -93,7 +98,7 @@ TECHNIQUE = 'runtime monitoring: fault enumeration (stall / trickle at every blo
 RULE = ('case = (side, stage, pattern, PIPELINING, #recipients, tls, T): one real session / delivery attempt whose '
         'peer stalls at that stage with that pattern; all cases of a shard run concurrently (staggered start) as '
         'greenlets of one hub. Every case is non-trivial (each has a stall, or is a must-succeed control with T/2 '
-        'delays at every step); distinct = distinct (side, smtp|lmtp, stage, pattern, pipelining, nrcpt, tls, second-stall, T). '
+        'delays at every step); distinct = distinct (side, smtp|lmtp, stage, pattern, pipelining, nrcpt, tls, idle_timeout set?, second-stall, T). '
         'The seed varies the order (interleaving), where a reply / command line is cut, which partial-reply cases '
         'get a second recipient, and the envelope addresses. mechanism = side/stage/pattern[/pipelining]/clause, '
         'except that a greenlet stuck in IO.close() is classified by that step (stage close, pattern '
@@ -113,7 +118,7 @@ ASSUMPTIONS = ['timers of one libev hub fire in deadline order and gevent.sleep(
                'diagnostic only: the name `Timeout` in slimta.smtp.server, slimta.relay.smtp.client/lmtpclient, '
                'slimta.relay.pipe is bound to a recording subclass of gevent.Timeout (set VERIF_C14_NOTRACE=1 to '
                'run without it)']
-REQUIRED_HITS = ['http-reuse-judged', 'relay-reuse-judged', 'server-stall-judged', 'server-421-checked', 'server-trickle-judged', 'edge-stall-judged',
+REQUIRED_HITS = ['http-reuse-judged', 'relay-reuse-judged', 'relay-probe-judged', 'server-stall-judged', 'server-421-checked', 'server-trickle-judged', 'edge-stall-judged',
                  'relay-stall-judged', 'relay-trickle-judged', 'relay-error-class-checked',
                  'relay-client-greenlet-checked', 'pipe-stall-judged', 'http-stall-judged',
                  'control-succeeded']
@@ -427,6 +432,10 @@ def run_server_case(sub):
                 raise
             res.inconc = 'watchdog: no reply while driving the session to stage %s' % stage
             return res
+        except (OSError, IOError) as e:
+            # e.g. the server's (bounded) handshake / command timeout hit a step BEFORE the stall point under load
+            res.inconc = 'stall-stage-not-reached: %s while driving the session to stage %s' % (type(e).__name__, stage)
+            return res
         finally:
             wd.close()
 
@@ -621,6 +630,7 @@ def _mk_relay(sub, script, T):
     ds = Downstream14(script, lmtp=lmtp, pipelining=sub['pipelining'],
                       tls_context=tls.server_context() if want_tls else None, tls_immediately=imm,
                       auth=want_auth, deaf=bool(sub.get('tls')))
+    ds.probe_log = []
     kw = dict(socket_creator=ds.creator, connect_timeout=T, command_timeout=T, data_timeout=T,
               ehlo_as='relay.c14.test', context=tls.client_context())
     if imm:
@@ -636,9 +646,41 @@ def _mk_relay(sub, script, T):
     def add_client():
         c = orig()
         clients.append(c)
+        _observe_probe(c, ds.probe_log)
         return c
     relay.add_client = add_client
     return ds, relay, clients
+
+
+def _observe_probe(c, log):
+    """Monitor (no behaviour change): note every call of the client's _check_server_timeout(): did
+    has_reply_waiting() see unsolicited bytes, and how did the call end ('inside' = still in there)."""
+    orig = c._check_server_timeout
+
+    def probe():
+        e = {'waiting': None, 'outcome': 'inside'}
+        log.append(e)
+        cl = c.client
+        orig_w = cl.has_reply_waiting
+
+        def waiting():
+            e['waiting'] = r = orig_w()
+            return r
+        cl.has_reply_waiting = waiting
+        try:
+            r = orig()
+            e['outcome'] = 'returned %s' % r
+            return r
+        except BaseException as ex:
+            e['outcome'] = 'raised ' + type(ex).__name__
+            raise
+        finally:
+            cl.__dict__.pop('has_reply_waiting', None)
+    c._check_server_timeout = probe
+
+
+def _probe_saw_fragment(ds):
+    return any(e['waiting'] for e in ds.probe_log)
 
 
 def _attempt(relay, env, out, started=None):
@@ -687,7 +729,12 @@ def _is_success(out):
     return not isinstance(r, Exception)
 
 
-def _judge_relay_attempt(sub, res, T, ds, g, out, clients, stage, pattern, label):
+_PEER_DID = {'stall': 'went silent', 'partial': 'sent half a reply line', 'trickle': 'began trickling its reply',
+             'unsolicited-partial-line': 'pushed half an unsolicited reply line and went silent',
+             'unsolicited-continuation-line': 'pushed unsolicited 421- continuation lines without a last line'}
+
+
+def _judge_relay_attempt(sub, res, T, ds, g, out, clients, stage, pattern, label, pre_chain=None):
     """Wait for the stall to begin, run the chain, judge. Returns False if the stage was never reached."""
     gevent.wait([ds.stalled, g], timeout=STEP_WATCHDOG, count=1)
     live = [c for c in clients if not c.dead]
@@ -700,12 +747,15 @@ def _judge_relay_attempt(sub, res, T, ds, g, out, clients, stage, pattern, label
         else:
             res.inconc = 'watchdog: %s attempt neither reached stage %s nor ended' % (label, stage)
         return False
+    if pre_chain:
+        pre_chain()
     chain_sleep(T)
     done = bool(out.get('done'))
     alive = [c for c in clients if not c.dead]
     d = res.detail.setdefault(label, {})
     d.update({'stage': stage, 'pattern': pattern, 'attempt_ended': done, 'outcome': _outcome(out),
               'client_greenlets_alive': len(alive), 'stalls_begun': list(ds.stall_log),
+              'server_timeout_probe_calls': [dict(e) for e in ds.probe_log],
               'commands_seen_by_next_hop': [[v for v, _ in c.commands] for c in ds.conns],
               'harness_slept_at_least_after_stall_began': K * T})
     res.hits.append('relay-stall-judged')
@@ -720,8 +770,7 @@ def _judge_relay_attempt(sub, res, T, ds, g, out, clients, stage, pattern, label
         res.failed.append((label, 'still-blocked',
                            'Relay.attempt still blocked after the harness slept %d*T (T=%gs) since the next hop '
                            '%s at stage %s; client blocked at %s with timeout scopes %s'
-                           % (K, T, {'stall': 'went silent', 'partial': 'sent half a reply line',
-                                     'trickle': 'began trickling its reply'}[pattern], stage,
+                           % (K, T, _PEER_DID[pattern], stage,
                               (blocked[0] or ['?'])[-1], d['active_timeout_scopes_in_blocked_greenlet'])))
         return True
     res.hits.append('relay-client-greenlet-checked')
@@ -823,12 +872,61 @@ def run_relay_case(sub):
                 if len(clients) > len(before) or ds.connects > 1:
                     del res.failed[:]
                     res.inconc = 'stall-stage-not-reached: the idle connection was not re-used'
+                elif probe and not _probe_saw_fragment(ds):
+                    del res.failed[:]
+                    res.inconc = ('stall-stage-not-reached: the unsolicited fragment was not seen by the '
+                                  '_check_server_timeout probe (read as a later reply instead: %s)' % _outcome(out2)[:60])
                 else:
                     res.hits.append('relay-reuse-judged')
+                    if probe:
+                        res.hits.append('relay-probe-judged')
         return res
     finally:
         for g in gs:
             g.kill(block=False)
+        for c in clients:
+            c.kill(block=False)
+        ds.kill()
+        for c in clients:
+            try:
+                if c.client is not None:
+                    c.client.io.socket.close()
+            except Exception:
+                pass
+
+
+PROBE_FRAGMENTS = {'unsolicited-partial-line': b'421 4.4.2 idle, clos',
+                   'unsolicited-continuation-line': b'421-4.4.2 idle for too long\r\n421-closing the connection so\r\n'}
+
+
+def run_relay_probe_case(sub):
+    """The _check_server_timeout probe before the first MAIL: banner and EHLO/LHLO complete normally, then -- as a
+    segment of its own, once the client has consumed the handshake reply -- the next hop starts an unsolicited reply
+    it never finishes and goes silent.  idle_timeout None (default) or set.  Only judged if the probe's
+    has_reply_waiting() saw the fragment (~10 ms window); if a later read got it instead (bounded by the command
+    timeout as the MAIL reply): stall-stage-not-reached, re-run, never a verdict."""
+    res = Result()
+    T = sub['T']
+    frag = PROBE_FRAGMENTS[sub['pattern']]
+    ds, relay, clients = _mk_relay(sub, {'after-ehlo': ('raw-stall', frag)}, T)
+    out = {}
+    g = _attempt(relay, _envelope(sub), out)
+    try:
+        if not _judge_relay_attempt(sub, res, T, ds, g, out, clients, sub['stage'], sub['pattern'], 'first',
+                                    pre_chain=settle):
+            return res
+        res.detail['first']['fragment'] = frag
+        res.detail['first']['fragment_sent_after_reply_was_consumed'] = ds.pushed_after_drain
+        res.detail['first']['idle_timeout'] = sub.get('idle')
+        if not _probe_saw_fragment(ds):
+            del res.failed[:]
+            res.inconc = ('stall-stage-not-reached: the unsolicited fragment was not seen by the '
+                          '_check_server_timeout probe (read as a later reply instead: %s)' % _outcome(out)[:60])
+            return res
+        res.hits.append('relay-probe-judged')
+        return res
+    finally:
+        g.kill(block=False)
         for c in clients:
             c.kill(block=False)
         ds.kill()
@@ -1278,7 +1376,7 @@ def run_http_reuse_case(sub):
 def _key(sub):
     sec = sub.get('second')
     return (sub['side'], sub.get('proto'), sub['stage'], sub['pattern'], sub.get('pipelining'), sub.get('nrcpt'),
-            bool(sub.get('tls')),
+            bool(sub.get('tls')), bool(sub.get('idle')),
             (sec['stage'], sec.get('mode')) if sec else None, sub['T'])
 
 
@@ -1334,6 +1432,10 @@ def all_subcases(tier, seed):
         # message 2 on the same connection, or sends half a line unasked while idle (the _check_server_timeout probe)
         for proto in ('smtp', 'lmtp'):
             for pl in (False, True):
+                for frag in sorted(PROBE_FRAGMENTS):
+                    for idle in (None, RELAY_IDLE):
+                        add(stall, side='relay', proto=proto, pipelining=pl, nrcpt=1, stage='probe-before-mail',
+                            pattern=frag, T=T, idle=idle)
                 for s2 in (('mail', 'eod0', 'idle-probe') if tier == 'quick' else ('idle-probe',)):
                     sec = {'stage': s2, 'mode': 'reuse'}
                     if s2 == 'idle-probe':
@@ -1425,7 +1527,7 @@ def run_sub(sub):
     if side in ('server', 'edge'):
         return run_server_case(sub)
     if side == 'relay':
-        return run_relay_case(sub)
+        return run_relay_probe_case(sub) if sub['stage'] == 'probe-before-mail' else run_relay_case(sub)
     if side == 'pipe':
         return run_pipe_case(sub)
     if side == 'http':
@@ -1503,6 +1605,7 @@ def run_case(case, R):
     if again:
         R.count('rerun-after-stall-stage-not-reached', len(again))
         for i in again:
+            R.count('rerun/%s/%s' % (subs[i]['side'], subs[i]['stage']))
             slot[i] = None
         gs2 = [(i, gevent.spawn_later(n * 10 * STAGGER, _run_guarded, subs[i], slot, i)) for n, i in enumerate(again)]
         gevent.joinall([g for _, g in gs2], timeout=WATCHDOG)
